@@ -206,3 +206,58 @@ def _mk_wrap(kind):
 for kind in ("reads", "writes", "fragmented", "generic", "upload"):
     REG.add(f"A/wrap/{kind}", _mk_wrap(kind), pre=lambda back, v: 0 <= back <= 6 and -2**31 <= v < 2**31, timeout=600, weight=2,
             desc=f"{kind}: the sequence generator is positioned 0..6 draws (symbolic) before the wrap; the reference controller rejects repeated counts", funcs=F)
+
+
+# ------------------------------------------------------------------ short histories mixing packet kinds (derived fragment packets, multi-service, bit writes)
+SEQ_OPS = ["generic", "read1", "read2", "write1", "frag1", "frag2", "frag3", "bitwrite"]
+
+
+def _mk_triple(first):
+    def h(o2: int, o3: int, back: int) -> str:
+        try:
+            from harness.C01 import TAGS
+            from vlib.ref.logix import Symbol
+            from vlib.sym import concrete
+            from pycomm3.cip.data_types import DINT, Array
+            target = scen.std_project()
+            tags = dict(TAGS)
+            for nm, n, iid in (("BIG1", 23, 41), ("BIG2", 40, 42), ("BIG3", 60, 43)):
+                target.symbols.append(Symbol(nm, iid, 0xC4, (n,)))
+                tags[nm] = dict(TAGS["DA"], tag_name=nm, instance_id=iid, dimensions=[n, 0, 0], type_class=Array(n, DINT))
+            d = scen.make_driver(target, cs=100, tags=tags)
+            d._sequence = _advanced(65534 - [0, 3, 7][back])
+            for op in (first, concrete(o2), concrete(o3)):
+                name = SEQ_OPS[op]
+                if name == "generic":
+                    ok = d.generic_message(service=0x01, class_code=0x64, instance=1, connected=True)
+                elif name == "read1":
+                    ok = d.read("D1")
+                elif name == "read2":
+                    ok = all(d.read("D1", "I1"))
+                elif name == "write1":
+                    ok = d.write(("D1", 5))
+                elif name == "bitwrite":
+                    ok = d.write(("D1.3", True))
+                else:
+                    k = int(name[-1])
+                    ok = d.read(["BIG1{23}", "BIG2{40}", "BIG3{60}"][k - 1])
+                    nfr = len([e for e in target.log if e[1] == 0x52])
+                if not ok:
+                    return "operation-failed:" + name + ":" + str(getattr(ok, "error", ""))
+                if target.violations:
+                    return "protocol after " + name + ": " + target.violations[0]
+            seqs = target.seqs
+            for i in range(1, len(seqs)):
+                if seqs[i] == seqs[i - 1]:
+                    return "repeat"
+            return "ok"
+        except Exception as e:
+            return "exc:" + type(e).__name__ + ":" + str(e)[:80]
+    return h
+
+
+for first in range(len(SEQ_OPS)):
+    REG.add(f"A/triples/first-{SEQ_OPS[first]}", _mk_triple(first), pre=lambda o2, o3, back: 0 <= o2 < len(SEQ_OPS) and 0 <= o3 < len(SEQ_OPS) and 0 <= back < 3, timeout=900, weight=2,
+            tier="quick" if SEQ_OPS[first] in ("frag1", "frag2", "frag3", "read2") else "thorough", funcs=F,
+            desc=f"three operations: {SEQ_OPS[first]}, then two symbolic choices over {SEQ_OPS} (fragmented reads answered in 1, 2 and 3 fragments at connection size 100), "
+                 "started 0/3/7 draws before the wrap: no count repeated back-to-back")
